@@ -13,7 +13,7 @@ DEFAULT = dict(
     nb=(1, 3), p_parallel=0.2, maxh=[50, 50, 50, None, 2, 3, 4], p_timeout=0.0, p_forward=0.12, p_sync=0.2,
     nh=(1, 6), proglen=(0, 5), ntasks=(1, 2), tasklen=(1, 6), p_wild=0.15, p_raise=0.05, p_readbus=0.04,
     p_redispatch=0.03, p_multikey=0.05, wild_dispatch=False, p_waitidle=0.1, p_parent=0.03, p_wal=0.0,
-    p_stop=0.0, p_expect=0.0, p_cancelrl=0.0, p_notimeout=0.1, p_walfault=0.0, p_payload=0.0, p_cleanup=0.15, p_samenames=0.0, p_dupnames=0.15, p_retry=0.1, p_late=0.12, p_existing=0.0, par_timeouts=False,
+    p_stop=0.0, p_expect=0.0, p_cancelrl=0.0, p_notimeout=0.1, p_walfault=0.0, p_payload=0.0, p_cleanup=0.15, p_samenames=0.0, p_dupnames=0.15, p_retry=0.1, p_late=0.12, p_existing=0.0, p_rtype=0.0, par_timeouts=False,
 )
 
 PAYLOADS = [
@@ -25,6 +25,7 @@ PAYLOADS = [
     {'blob': {'__type__': 'bytes', 'v': 'PNG:https://example.com/0'}, 'n': 1},
     {'stamp': {'__type__': 'datetime', 'v': '2026-01-02T03:04:05+00:00'}, 'tags': {'__type__': 'set_int', 'v': [3, 1, 2]}},
     {'maybe': {'__type__': 'opt_float', 'v': None}, 'ratio': {'__type__': 'opt_float', 'v': 2.5}},
+    {'handle': {'__type__': 'opaque'}, 'n': 2},          # not serialisable: the WAL write of such an event fails
 ]
 
 
@@ -39,7 +40,7 @@ def gen_prog(rng, o, ty, nb, kind):
                 prog.append(['dispatch', rng.randrange(nb), rng.choice(lower), nslots])
                 nslots += 1
             elif r > 1 - o['p_raise']:
-                prog.append(['raise'])
+                prog.append(['return_exc'] if rng.random() < 0.25 else ['raise'])
                 break
             continue
         if r < 0.28:
@@ -60,8 +61,10 @@ def gen_prog(rng, o, ty, nb, kind):
         elif o['p_existing'] and 0.88 + o['p_readbus'] + o['p_redispatch'] <= r < 0.88 + o['p_readbus'] + o['p_redispatch'] + o['p_existing']:
             prog.append(['dispatch_existing', rng.choice([0, 0, 1, 2]), rng.randrange(nb)])
         elif r > 1 - o['p_raise']:
-            # (one raise in five is a CancelledError the handler lets escape from a cancelled helper task it awaits)
-            prog.append(['raise_cancelled'] if rng.random() < 0.2 else ['raise'])
+            # (one raise in five is a CancelledError the handler lets escape from a cancelled helper task it awaits, one an
+            #  exception object that is returned instead of raised)
+            x = rng.random()
+            prog.append(['raise_cancelled'] if x < 0.2 else ['return_exc'] if x < 0.4 else ['raise'])
             break
     return prog
 
@@ -114,6 +117,8 @@ def gen_core(rng, **over):
                           ('none' if rng.random() < o['p_notimeout'] else None)}
         if rng.random() < o['p_payload']:
             sc['types'][n]['payload'] = rng.choice(PAYLOADS)
+        if rng.random() < o['p_rtype']:
+            sc['types'][n]['rtype'] = rng.choice(['str', 'strnone', 'int'])
     if o['p_walfault'] > 0:
         sc['walfaults'] = [[i, rng.choice(['open', 'write', 'mkdir'])] for i in range(12) if rng.random() < o['p_walfault']]
     if o['p_timeout'] > 0 and not o.get('par_timeouts'):
@@ -136,7 +141,7 @@ def gen_core(rng, **over):
             h['prog'] = gen_prog(rng, o, '*', nb, kind)
         if key != '*' and rng.random() < 0.3:
             h['byclass'] = True          # registered with the event class instead of the type name
-        if kind in ('async', 'sync') and rng.random() < 0.35 and not (h['prog'] and h['prog'][-1][0] == 'raise'):
+        if kind in ('async', 'sync') and rng.random() < 0.35 and not (h['prog'] and h['prog'][-1][0] in ('raise', 'raise_cancelled', 'return_exc')):
             h['prog'].append(['return', {f"k{len(sc['handlers'])}": len(sc['handlers']), 'shared': len(sc['handlers']) % 2}])      # (non-empty dict values: the flat-dict accessor merges them)
         if kind == 'async' and rng.random() < o['p_retry']:
             h['retry'] = True            # decorated with bubus.helpers.retry (no retries, no semaphore, a far per-attempt timeout)
